@@ -243,6 +243,9 @@ func runC03(c *Ctx) {
 	l := newLabeler(p, pkgs)
 	l.Run(seedHandlerParams(l, t))
 	pkH, pkU := p.Pkg(pkgCheckHandle), p.Pkg(pkgCheckUtil)
+	c03EmptyCurrent(c, l)
+	c.Rule("SUPPRESSION-CONFIGURED", "the annotation filter drops an annotation only under a condition that reads the configuration", 4)
+	ruleSuppressionGuarded(c, "SUPPRESSION-CONFIGURED")
 
 	// (2) adapters
 	for _, fr := range p.FuncsOf(pkU) {
